@@ -328,3 +328,26 @@ def det_rng(seed, forced=()):
         yield
     finally:
         secrets.randbelow, secrets.token_bytes = o1, o2
+
+
+def probe_keys(c):
+    """key generation and public-key derivation: do they follow the rebound group order / generator?"""
+    import bits
+    import bits.keys
+
+    def cp(d):
+        return tuple(bits.compute_point(_b32(d))) == h_mul(c, d, h_G(c))
+
+    def refuse(v):
+        try:
+            bits.compute_point(_b32(v))
+        except Exception:  # noqa
+            return True
+        return False
+
+    def gen(i):
+        with scripted_rng([((5 * i + 2) % (c["n"] - 1)) + 1] * 8, token=_b32(((5 * i + 2) % (c["n"] - 1)) + 1) + bytes(8)):
+            k = int.from_bytes(bits.keys.key(), "big")
+        return 1 <= k <= c["n"] - 1
+    return ([("compute_point", lambda d=d: cp(d)) for d in range(1, 7)] + [("range", lambda v=v: refuse(v)) for v in (c["n"], c["n"] + 1, c["n"] + 5, 2 * c["n"])]
+            + [("keygen", lambda i=i: gen(i)) for i in range(6)])
